@@ -799,7 +799,7 @@ def judgeFxAnswer (cands : List (Nat × Option Name)) (addrs : List Nat) (al : A
 
 /-- floors of the fixture census: (tag, loaded at least, presented to the model at least) -/
 def censusFloors : List (String × Nat × Nat) :=
-  [("elf", 18, 18), ("macho", 11, 10), ("pe", 7, 7), ("pdb", 2, 0), ("dsym", 1, 1)]
+  [("elf", 18, 18), ("macho", 11, 11), ("pe", 7, 7), ("pdb", 2, 0), ("dsym", 1, 1)]
 
 def judgeCensus (impl : List String) : Bool × String :=
   let get (key tag : String) : Nat :=
